@@ -123,6 +123,13 @@ CLAIMED.update({
             "7 C17"),
 })
 
+CLAIMED.update({
+    "C10": ("Coq proof (the ordered merge of the components' registries holds every registered symbol exactly once; soundness of the declaration-before-use test of the EvalRates unit) + extracted-model correspondence of the merged parameter / derived / constant tables and of the closure verdict against g++ + g++ -fsyntax-only on every rendered translation unit of every configuration",
+            "Theorems in Props/C10.v: _collect_variable_items yields each symbol once and misses none that any component registers; a unit that passes the closure test declares every name exactly once and before its first use (each derived quantity uses only fixed names, index / binding-energy macros, constants, parameters and earlier derived quantities; each rate assignment only declared names). The extracted test runs on the live registries and rate assignments of every configuration and must agree with g++ on the rendered naunet_rates.cpp; all rendered .cpp files of 12 configurations x cvode dense / sparse / odeint are syntax-checked against stand-in SUNDIALS / Boost headers. Four known findings are confirmed by the compiler.",
+            "Partial: only name closure of EvalRates is modelled; diagnostics about types or arity and all other units are observed with g++ (trusted together with the stand-in headers); CUDA sources are not compiled.",
+            "7 C10"),
+})
+
 NOT_YET = {}
 
 
